@@ -518,7 +518,9 @@ class Check:
                 broken.append(("correspondence",
                                f"{len(mism)} of {len(cases)} cases differ; first: "
                                f"{json.dumps(self.describe(cases[i]))[:600]} impl={jsonable(observed[i])!r}"[:1500]))
+        extra_ties = []
         for name, eok, detail in self.extra_checks():
+            extra_ties.append({"tie": name, "ok": bool(eok), "detail": str(detail)[:400]})
             if not eok:
                 broken.append((name, detail))
         # 4. search when something broke
@@ -594,6 +596,7 @@ class Check:
                 "generated_from_source": gen_info,
                 "input_distribution": self.distribution(cases, observed),
                 "technique": self.technique,
+                "further_ties": extra_ties,
             },
             "assumptions": list(self.assumptions),
             "wall_s": round(wall, 2),
